@@ -85,9 +85,23 @@ TARGETS: Dict[str, Dict[str, Any]] = {
     "hashsums": {
         "source": "src/metador_core/util/hashsums.py",
         "abstract": ["Bytes"], "opaque": {"hashsum": {"ret": "str"}},
-        "functions": [{"py": "qualified_hashsum", "params": {"data": "Bytes"}}],
+        "records": {
+            "Hasher": {"coq": "HS", "fields": {"block_size": ("py_block_size", "int")},
+                       "mutators": {"update": ("py_update", ["bytes"])},
+                       "methods": {"hexdigest": ("py_hexdigest", "str")}},
+            "HashCtor": {"coq": "HC", "fields": {}, "call": ("py_hash_new", "Hasher")},
+        },
+        "dicts": {"_hash_alg": {"coq": "py_hash_alg", "key": "str", "value": "HashCtor",
+                                "why": "the table of supported hashlib constructors"}},
+        "functions": [
+            {"py": "qualified_hashsum", "params": {"data": "Bytes"}},
+            {"py": "hashsum", "params": {"data": "stream", "alg": "str"}, "ret": "str",
+             "binders": ("(HS HC : Type) (py_block_size : HS -> Z) (py_update : HS -> list ascii -> HS) "
+                         "(py_hexdigest : HS -> string) (py_hash_new : HC -> HS) (py_hash_alg : string -> option HC)"),
+             "rewrites": [{"from": "if isinstance(data, bytes):\n    data = BytesIO(data)", "to": "pass",
+                           "why": "a bytes argument is wrapped into a stream; the model takes a stream in both cases"}]}],
         "constants": ["DEF_HASH_ALG"],
-        "model": "coq/Util/DirHash.v (qualified)",
+        "model": "coq/Util/DirHash.v (qualified, hashsum, oneshot)",
     },
     "chain": {
         "source": "src/metador_core/ih5/manifest.py",
@@ -133,9 +147,55 @@ TARGETS: Dict[str, Dict[str, Any]] = {
         "outside_subset": ["DiffNode._type", "DiffNode.nodes", "DiffNode.compare"],
         "model": "coq/Util/Diff.v (nstatus)",
     },
+    "interface": {
+        "source": "src/metador_core/plugin/interface.py",
+        "extra_sources": ["src/metador_core/schema/plugins.py"],
+        "header": ("From MV Require Import Util.PluginRef.\n"
+                   "(* the state of a plugin group read by versions/resolve: its name and its version table *)\n"
+                   "Definition py_pg_ref (s : string * table) (n : string) (v : ver) : ref := mkref (fst s) n v.\n"
+                   "Definition py_pg_get (s : string * table) (n : string) : option (list ref) :=\n"
+                   "  match tget (snd s) n with [] => None | l => Some l end.\n"),
+        "aliases": {"SemVerTuple": SEMVER, "AnyPluginRef": "PluginRef"},
+        "records": {
+            "PG": {"coq": "(string * table)", "fields": {}},
+            "PluginRef": {"coq": "ref", "class": "PluginRef", "default": "(mkref \"\" \"\" (0, (0, 0)))%N", "fields": {
+                "group": ("rgroup", "str"), "name": ("rname", "str"), "version": ("rver", SEMVER)}},
+        },
+        "extern": {
+            "self.PluginRef": {"coq": "py_pg_ref self", "params": ["str", SEMVER], "kw": ["name", "version"],
+                               "ret": "PluginRef", "why": "the group's PluginRef subclass: group field preset to the group name"},
+            "self._VERSIONS.get": {"coq": "py_pg_get self", "params": ["str"], "ret": "Optional[List[PluginRef]]",
+                                   "why": "dict lookup in the version table (None if the name is not registered)"},
+        },
+        "functions": [{"py": "PluginGroup.versions", "params": {"self": "PG"}},
+                      {"py": "PluginGroup.resolve", "params": {"self": "PG"}}],
+        "helpers": [{"py": "PluginRef.supports", "params": {"other": "PluginRef"}}],
+        "model": "coq/Util/PluginRef.v (versions, resolve)",
+    },
+    "tocschemas": {
+        "source": "src/metador_core/container/interface.py",
+        "extra_sources": ["src/metador_core/schema/plugins.py"],
+        "header": ("From MV Require Import Util.PluginRef Toc.Query.\n"
+                   "(* schema references of a container: (name, version), group fixed; iterating the dict\n"
+                   "   self._children yields its keys *)\n"
+                   "Definition py_sg (r : sref) : string := SG.\n"
+                   "Definition py_sref (n : string) (v : ver) : sref := (n, v).\n"
+                   "Definition py_toc_children (t : toc) : list sref := akeys (t_chi t).\n"),
+        "aliases": {"SemVerTuple": SEMVER},
+        "records": {
+            "TOC": {"coq": "toc", "fields": {"_children": ("py_toc_children", "List[PluginRef]")}},
+            "PluginRef": {"coq": "sref", "class": "PluginRef", "fields": {
+                "group": ("py_sg", "str"), "name": ("fst", "str"), "version": ("snd", SEMVER)}},
+        },
+        "extern": {"schemas.PluginRef": {"coq": "py_sref", "params": ["str", SEMVER], "kw": ["name", "version"],
+                                         "ret": "PluginRef", "why": "schema group's PluginRef: group preset to 'schema'"}},
+        "functions": [{"py": "TOCSchemas.versions", "params": {"self": "TOC"}}],
+        "helpers": [{"py": "PluginRef.supports", "params": {"other": "PluginRef"}}],
+        "model": "coq/Toc/Query.v (tversions, vcompat)",
+    },
 }
 
-PROPS: Dict[str, List[str]] = {"C16": ["plugins", "types"], "C08": ["utils"], "C03": ["record"], "C19": ["hashsums"], "C04": ["chain"], "C18": ["diff"]}
+PROPS: Dict[str, List[str]] = {"C16": ["plugins", "types", "interface"], "C08": ["utils"], "C03": ["record"], "C19": ["hashsums"], "C04": ["chain"], "C18": ["diff"], "C07": ["tocschemas"]}
 
 TRUSTED = ("generated tie (coverage.generated_tie): tools/py2coq.py (fail-closed Python->Gallina translator, ~1100 lines) and "
            "coq/Gen/PyLib.v (meaning of the Python builtins it emits: str.startswith/find/split/join/slices, len, list "
